@@ -353,7 +353,7 @@ func (h *pipeHarness) opSubscribe(exact, excl bool, nListeners int) (string, err
 		}
 		h.nsub++
 		s := &pipeSub{name: fmt.Sprintf("s%d(exact=%v,excl=%v)", h.nsub, exact, excl), sub: sub, rangeID: r}
-		s.viewChecker = viewChecker{m: newRegModel(excl), values: sub.Values}
+		s.viewChecker = viewChecker{m: newRegModel(excl), values: sub.Values, patience: 2 * time.Second}
 		s.m.show = h.sym
 		if shared {
 			// joins a running watcher: it is told what the watcher has been told so far
@@ -481,6 +481,7 @@ func TestVerifC13Pipeline(t *testing.T) {
 	st := verifkit.New("pipeline")
 	defer st.Flush()
 	rapid.Check(t, pipelineProperty(st, false))
+	st.ClassN("views-that-matched-only-after-a-re-read", int(c13LateViews.Load()))
 }
 
 // TestVerifC13PipelineConcurrent: the same histories while every subscriber's Values() is
@@ -490,6 +491,7 @@ func TestVerifC13PipelineConcurrent(t *testing.T) {
 	st := verifkit.New("pipeline-concurrent")
 	defer st.Flush()
 	rapid.Check(t, pipelineProperty(st, true))
+	st.ClassN("views-that-matched-only-after-a-re-read", int(c13LateViews.Load()))
 }
 
 func pipelineProperty(st *verifkit.Stats, concurrent bool) func(*rapid.T) {
